@@ -33,6 +33,15 @@ def dump_inputs(path):
             yield from _one("".join(buf))
 
 
+def sorted_inputs(path):
+    """All input states of a dump as compact JSON strings in a canonical order (TLC's dump order depends on its workers)."""
+    import json
+
+    res = [json.dumps(inp, sort_keys=True, separators=(",", ":")) for inp in dump_inputs(path)]
+    res.sort()
+    return res
+
+
 def _one(text):
     if "done = FALSE" not in text:
         return
@@ -192,15 +201,29 @@ def walk_progress(allocator):
     return "ok"
 
 
+class ObservedCrash(Exception):
+    """The code under test raised instead of returning a result."""
+
+
 def observe_allocator(schedule_objs):
     """Runs the real Allocator on real schedule objects and projects its three results."""
     from esrally.driver import driver
 
     a = driver.Allocator(schedule_objs)
-    m = [[project_cell(x) for x in row] for row in a.allocations]
-    jps = [project_cell(x) for x in a.join_points]
-    tpj = [sorted(str(t.name) for t in entry) for entry in a.tasks_per_joinpoint]
-    return {"m": m, "jps": jps, "tpj": tpj, "clients": int(a.clients), "progress": walk_progress(a)}
+    stage = "allocations"
+    try:
+        m = [[project_cell(x) for x in row] for row in a.allocations]
+        stage = "join_points"
+        jps = [project_cell(x) for x in a.join_points]
+        stage = "tasks_per_joinpoint"
+        tpj = [sorted(str(t.name) for t in entry) for entry in a.tasks_per_joinpoint]
+        stage = "clients"
+        clients = int(a.clients)
+    except tlc.MachineryError:
+        raise
+    except Exception as ex:  # pylint: disable=broad-except
+        raise ObservedCrash("Allocator.%s raised %s: %s" % (stage, type(ex).__name__, ex)) from ex
+    return {"m": m, "jps": jps, "tpj": tpj, "clients": clients, "progress": walk_progress(a)}
 
 
 def observe_assign(hosts, n):
